@@ -34,18 +34,18 @@ type Entity struct {
 
 // Module is the abstract module of an "ok" outcome.
 type Module struct {
-	Types    []string   `json:"types"`
-	Comdats  []string   `json:"comdats"`
-	Globals  []string   `json:"globals"`
-	Aliases  []string   `json:"aliases"`
-	IFuncs   []string   `json:"ifuncs"`
-	Funcs    []string   `json:"funcs"`
-	Attrs    []string   `json:"attrs"`
+	Types   []string `json:"types"`
+	Comdats []string `json:"comdats"`
+	Globals []string `json:"globals"`
+	Aliases []string `json:"aliases"`
+	IFuncs  []string `json:"ifuncs"`
+	Funcs   []string `json:"funcs"`
+	Attrs   []string `json:"attrs"`
 	// AttrBodies[i] lists the bodies of the definitions of Attrs[i] in textual order.
 	AttrBodies [][]string `json:"attrBodies"`
-	Nmds     []string   `json:"nmds"`
-	NmdNodes [][]string `json:"nmdNodes"`
-	Mds      []string   `json:"mds"`
+	Nmds       []string   `json:"nmds"`
+	NmdNodes   [][]string `json:"nmdNodes"`
+	Mds        []string   `json:"mds"`
 }
 
 // Outcome is [st, mod].
@@ -140,7 +140,38 @@ func refsOf(e *Entity, rk string) []Ref {
 	return out
 }
 
-func tyName(n string) string { return "%" + n }
+// ident spells a name: bare where the LLVM lexer allows it, quoted otherwise.
+func ident(n string) string {
+	bare := n != ""
+	for i := 0; i < len(n); i++ {
+		c := n[i]
+		if !(c >= 'a' && c <= 'z' || c >= 'A' && c <= 'Z' || c >= '0' && c <= '9' || c == '$' || c == '.' || c == '_' || c == '-') {
+			bare = false
+		}
+	}
+	if bare {
+		return n
+	}
+	return `"` + n + `"`
+}
+
+func tyName(n string) string { return "%" + ident(n) }
+
+// comdatName spells a comdat name ($10 does not lex: a name starting with a digit is quoted).
+func comdatName(n string) string {
+	if n != "" && n[0] >= '0' && n[0] <= '9' {
+		return `"` + n + `"`
+	}
+	return ident(n)
+}
+
+// comdatRef renders the comdat clause of a global or function.
+func comdatRef(x Ref) string {
+	if x.Aux == "implicit" {
+		return "comdat"
+	}
+	return "comdat($" + comdatName(x.To) + ")"
+}
 
 // directBA: a global whose only initialiser reference is one blockaddress is that constant itself
 // (constants are uniqued: the blockaddress then has one use per such global).
@@ -155,7 +186,16 @@ func gname(key string) string {
 	if strings.HasPrefix(key, "@") {
 		return key
 	}
-	return "@" + key
+	allDigits := key != ""
+	for i := 0; i < len(key); i++ {
+		if key[i] < '0' || key[i] > '9' {
+			allDigits = false
+		}
+	}
+	if allDigits {
+		return `@"` + key + `"` // a name made of digits (bare, it would be an ID)
+	}
+	return "@" + ident(key)
 }
 
 // lname renders a local name.
@@ -163,7 +203,7 @@ func lname(n string) string {
 	if n == "q0" {
 		return `%"0"`
 	}
-	return "%" + n
+	return "%" + ident(n)
 }
 
 func mdID(n string) string {
@@ -283,7 +323,7 @@ func Render(src []Entity) string {
 				fmt.Fprintf(&sb, "%s = type { %s }\n", tyName(e.N), strings.Join(fs, ", "))
 			}
 		case "comdat":
-			fmt.Fprintf(&sb, "$%s = comdat any\n", e.N)
+			fmt.Fprintf(&sb, "$%s = comdat any\n", comdatName(e.N))
 		case "global":
 			ct := r.contentType(e)
 			var init string
@@ -317,7 +357,7 @@ func Render(src []Entity) string {
 			}
 			fmt.Fprintf(&sb, "%s = %sglobal %s %s", gname(key), as, ct, init)
 			for _, x := range refsOf(e, "c.global") {
-				fmt.Fprintf(&sb, ", comdat($%s)", x.To)
+				sb.WriteString(", " + comdatRef(x))
 			}
 			sb.WriteString(r.mdAttach(e.Refs, ", "))
 			sb.WriteString("\n")
@@ -344,6 +384,23 @@ func Render(src []Entity) string {
 			}
 			fmt.Fprintf(&sb, "!%s = !{%s}\n", e.N, strings.Join(ns, ", "))
 		case "md":
+			if e.Body == "diexpr" {
+				fmt.Fprintf(&sb, "%s = !DIExpression(DW_OP_deref)\n", mdID(e.N))
+				continue
+			}
+			if e.Body == "diarr" {
+				fs := []string{"tag: DW_TAG_array_type"}
+				names := []string{"dataLocation", "associated", "allocated", "rank"}
+				k := 0
+				for _, x := range e.Refs {
+					if x.RK == "m.difield" && k < len(names) {
+						fs = append(fs, names[k]+": "+mdID(x.To))
+						k++
+					}
+				}
+				fmt.Fprintf(&sb, "%s = !DICompositeType(%s)\n", mdID(e.N), strings.Join(fs, ", "))
+				continue
+			}
 			if e.Body == "di" {
 				fs := []string{"tag: DW_TAG_pointer_type"}
 				names := []string{"baseType", "scope"}
@@ -365,6 +422,8 @@ func Render(src []Entity) string {
 				switch x.RK {
 				case "m.tuple":
 					fs = append(fs, mdID(x.To))
+				case "l.baddr":
+					fs = append(fs, fmt.Sprintf("i8* blockaddress(%s, %%%s)", gname(x.To), x.Aux))
 				case "g.mdvalue":
 					fs = append(fs, r.ptrType(x.To)+" "+gname(x.To))
 				}
@@ -414,7 +473,7 @@ func (r *renderer) renderFunc(sb *strings.Builder, e *Entity, key string) {
 		tail.WriteString(" " + attrID(x.To))
 	}
 	for _, x := range refsOf(e, "c.func") {
-		fmt.Fprintf(&tail, " comdat($%s)", x.To)
+		tail.WriteString(" " + comdatRef(x))
 	}
 	for _, x := range refsOf(e, "g.personality") {
 		fmt.Fprintf(&tail, " personality %s", r.asI8(x.To))
@@ -448,7 +507,7 @@ func (r *renderer) renderFunc(sb *strings.Builder, e *Entity, key string) {
 			flush()
 			open = true
 			if l.N != "" {
-				fmt.Fprintf(sb, "%s:\n", l.N)
+				fmt.Fprintf(sb, "%s:\n", ident(l.N))
 			}
 			var ts []string
 			for _, x := range l.Refs {
@@ -499,6 +558,52 @@ func (r *renderer) renderFunc(sb *strings.Builder, e *Entity, key string) {
 			}
 			fmt.Fprintf(sb, "  %sinvoke %s %s(%s)\n          to label %s unwind label %s%s\n", lhs, cret, gname(callee), cargs, lname(ts[0]), lname(ts[1]), r.mdAttach(l.Refs, " "))
 			open = false
+		case "catchswitch", "catchret", "cleanupret":
+			// funclet terminators: they end the open block
+			within, unwind, ts := "none", "to caller", []string{}
+			for _, x := range l.Refs {
+				switch x.RK {
+				case "l.within":
+					within = lname(x.To)
+				case "l.unwind":
+					unwind = "label " + lname(x.To)
+				case "l.target":
+					ts = append(ts, "label "+lname(x.To))
+				}
+			}
+			md := r.mdAttach(l.Refs, ", ")
+			switch l.LK {
+			case "catchswitch":
+				lhs := ""
+				if l.N != "" {
+					lhs = lname(l.N) + " = "
+				}
+				fmt.Fprintf(sb, "  %scatchswitch within %s [%s] unwind %s%s\n", lhs, within, strings.Join(ts, ", "), unwind, md)
+			case "catchret":
+				for len(ts) < 1 {
+					ts = append(ts, "label "+lname("zz"))
+				}
+				fmt.Fprintf(sb, "  catchret from %s to %s%s\n", within, ts[0], md)
+			case "cleanupret":
+				fmt.Fprintf(sb, "  cleanupret from %s unwind %s%s\n", within, unwind, md)
+			}
+			open = false
+		case "catchpad", "cleanuppad":
+			if !open {
+				open = true
+				curTerm = retInst
+			}
+			within := "none"
+			for _, x := range l.Refs {
+				if x.RK == "l.within" {
+					within = lname(x.To)
+				}
+			}
+			lhs := ""
+			if l.N != "" {
+				lhs = lname(l.N) + " = "
+			}
+			fmt.Fprintf(sb, "  %s%s within %s []%s\n", lhs, l.LK, within, r.mdAttach(l.Refs, ", "))
 		case "lpad":
 			if !open {
 				open = true
@@ -596,6 +701,27 @@ func (r *renderer) renderInst(l *Local) string {
 	}
 }
 
+// RefClass names the index a reference site is looked up in (RefClass of TranslateSrc.tla).
+func RefClass(rk string) string {
+	switch rk {
+	case "ty.alias", "ty.field", "ty.global", "ty.sig", "ty.inst", "ty.const":
+		return "type"
+	case "g.init", "g.aliasee", "g.resolver", "g.operand", "g.callee", "g.personality", "g.mdvalue", "g.ulo", "g.cmp":
+		return "glob"
+	case "c.global", "c.func":
+		return "comdat"
+	case "a.func", "a.call":
+		return "attr"
+	case "m.attach", "m.tuple", "m.named", "m.difield":
+		return "md"
+	case "l.operand", "l.target", "l.phipred", "l.unwind", "l.within":
+		return "local"
+	case "l.baddr", "l.ulobb":
+		return "block"
+	}
+	return ""
+}
+
 // SrcKey is a canonical string for a source (used to de-duplicate vectors).
 func SrcKey(src []Entity) string { return Render(src) }
 
@@ -624,6 +750,56 @@ func FaultSites(src []Entity) []string {
 		}
 	}
 	sort.Strings(out)
+	return out
+}
+
+// DanglingSites lists "rk" of references whose target has no definition in src although the
+// reference was not redirected to an undefined name: the definition was deleted.
+func DanglingSites(src []Entity) []string {
+	keys := Keys(src)
+	def := map[string]bool{}
+	for i, e := range src {
+		switch {
+		case isGlob(e.K):
+			def["glob\x00"+keys[i]] = true
+		case e.K == "type" || e.K == "comdat" || e.K == "md":
+			def[e.K+"\x00"+e.N] = true
+		}
+	}
+	var out []string
+	add := func(x Ref) {
+		if x.To == "zz" || x.To == "q0" {
+			return
+		}
+		c := RefClass(x.RK)
+		if c == "block" {
+			c = "glob"
+		}
+		if c != "glob" && c != "type" && c != "comdat" && c != "md" {
+			return
+		}
+		if !def[c+"\x00"+x.To] {
+			s := x.RK
+			if x.Aux == "implicit" {
+				s += "(implicit)"
+			}
+			out = append(out, s)
+		}
+	}
+	for _, e := range src {
+		for _, x := range e.Refs {
+			add(x)
+		}
+		for _, l := range e.Locals {
+			for _, x := range l.Refs {
+				add(x)
+			}
+		}
+	}
+	sort.Strings(out)
+	if len(out) > 3 {
+		out = out[:3]
+	}
 	return out
 }
 
